@@ -1016,4 +1016,67 @@ Section Facts.
     End Twin.
 
   End OnPipeline.
+
+  (* ---------------------------------------------------------------- 7b. histories *)
+  Definition step_transparent (u c : sobs) : Prop :=
+    match u, c with
+    | OCall ru _, OCall rc _ => forall out_u, ru = Ok out_u -> exists out_c, rc = Ok out_c /\ outcome_eq out_u out_c
+    | OMut a, OMut b => a = b
+    | _, _ => False
+    end.
+
+  (* every pipeline the history goes through is accepted by construction-time validation (wf_pipeline) and its
+     root_args cover what the outputs read (roots_okb) *)
+  Definition hist_good (p : pipeline) (h : list step) : Prop :=
+    forall q, In q (hist_pipelines p h) -> wf_pipeline q /\ roots_okb q = true.
+
+  Lemma cache_inv_clear p p' c : cache_inv p c -> cache_inv p' (cclear P c).
+  Proof.
+    intros [Hg _]. split; [now apply (L_good_clear P good LAW)|].
+    intros k v H. rewrite (L_clear P good LAW c k Hg) in H. discriminate.
+  Qed.
+
+  Lemma mutate_err_same m p p' e : mutate m p = (p', Err e) ->
+    match m with UpdBound _ _ | Replace _ => p' = p | _ => True end.
+  Proof.
+    destruct m as [o kw full|d|o b|new]; cbn; try (intros _; exact I).
+    - unfold upd_bound. destruct (producer p o); [|now intros H; injection H as <- _].
+      destruct (negb (subset_str (akeys b) (pnames p0))); [now intros H; injection H as <- _ | discriminate].
+    - unfold replace_func. destruct (existsb _ p); [discriminate | now intros H; injection H as <- _].
+  Qed.
+
+  Lemma hist_good_head p h : hist_good p h -> wf_pipeline p /\ roots_okb p = true.
+  Proof. intros H. apply H. destruct h; now left. Qed.
+
+  Lemma hist_good_tail p m h : hist_good p (m :: h) -> hist_good (fst (mutate m p)) h.
+  Proof. intros H q Hq. apply H. cbn. now right. Qed.
+
+  Theorem cache_transparent_inv : forall h p cu cc, hist_good p h -> cache_inv p cu -> cache_inv p cc ->
+    Forall2 step_transparent (exec_hist body pick P false false p cu h) (exec_hist body pick P false true p cc h).
+  Proof.
+    induction h as [|m h IH]; intros p cu cc Hg Hcu Hcc; [constructor|].
+    destruct (hist_good_head _ _ Hg) as [WF ROOTS]. destruct (wf_topo p WF) as [ls LS].
+    pose proof (hist_good_tail _ _ _ Hg) as Hg'.
+    destruct m as [o kw full|d|o b|new].
+    - cbn [exec_hist]. cbn [mutate fst] in Hg'.
+      destruct (crun body pick P false false p cu o kw full) as [[ru lu] cu'] eqn:Eu.
+      destruct (crun body pick P false true p cc o kw full) as [[rc lc] cc'] eqn:Ec.
+      constructor.
+      + cbn. intros out_u ->.
+        destruct (call_transparent p WF ROOTS ls LS kw full cu cc o out_u lu cu' Hcu Hcc Eu) as [out_c [lgc [cc'' [Ec' Heq]]]].
+        rewrite Ec in Ec'. injection Ec' as -> _ _. eauto.
+      + apply IH; [exact Hg' | |].
+        * exact (crun_cache_inv p WF ROOTS ls LS kw full false cu o ru lu cu' Hcu Eu).
+        * exact (crun_cache_inv p WF ROOTS ls LS kw full true cc o rc lc cc' Hcc Ec).
+    - cbn [exec_hist]. destruct (mutate (UpdDefaults d) p) as [p' r] eqn:Em. cbn [fst] in Hg'.
+      constructor; [reflexivity|]. apply IH; [exact Hg' | |]; destruct r; now apply (cache_inv_clear p).
+    - cbn [exec_hist]. destruct (mutate (UpdBound o b) p) as [p' r] eqn:Em. cbn [fst] in Hg'.
+      constructor; [reflexivity|]. destruct r as [u|e].
+      + apply IH; [exact Hg' | |]; now apply (cache_inv_clear p).
+      + pose proof (mutate_err_same _ _ _ _ Em) as E. cbn in E. subst p'. now apply IH.
+    - cbn [exec_hist]. destruct (mutate (Replace new) p) as [p' r] eqn:Em. cbn [fst] in Hg'.
+      constructor; [reflexivity|]. destruct r as [u|e].
+      + apply IH; [exact Hg' | |]; now apply (cache_inv_clear p).
+      + pose proof (mutate_err_same _ _ _ _ Em) as E. cbn in E. subst p'. now apply IH.
+  Qed.
 End Facts.
